@@ -388,7 +388,8 @@ def generate(tier, rng):
                 source="random", seed=rng.randrange(10 ** 6))
     # ---- analytic_halo: odd padded size, all modes retained
     halos = [(9, 7, 10.0, 7.5, 20.0), (9, 7, 10.0, 7.5, 30.0), (9, 7, 10.0, 5.0, 20.0),
-             (7, 5, 10.0, 10.0, None), (9, 7, 10.0, 7.5, None), (5, 9, 6.0, 4.0, 13.0),
+             (7, 5, 10.0, 10.0, None), (9, 7, 10.0, 7.5, None), (9, 7, 10.0, 7.0, None),
+             (5, 9, 6.0, 4.0, 13.0),
              (7, 7, 5.0, 5.0, 12.5)]
     c = 0
     for rep in range(2 if thorough else 1):
@@ -417,6 +418,40 @@ def generate(tier, rng):
                     n=n, modes=[4, 4] if ref == "analytic" else [8, 6],
                     level_fracs=[0.25, 0.5, 1.0], ref=ref, source=SOURCES[c % 3],
                     seed=rng.randrange(10 ** 6))
+    # ---- seeded random members (thorough only)
+    if thorough:
+        dxs = [3.0, 4.0, 5.0, 7.5, 10.0, 12.5, 20.0]
+        for i in range(150):
+            dx = rng.choice(dxs)
+            dy = rng.choice([d for d in dxs if 0.5 <= d / dx <= 2.0])
+            fp = rng.random() < 0.5
+            lv = sorted(rng.sample(range(9), rng.randint(2, 4))) if rng.random() < 0.5 \
+                else rng.randint(0, 8)
+            grid = dict(kind=rng.choice(["uniform", "geometric"]), z0=0.2,
+                        zt=round(rng.uniform(4.0, 12.0), 2), n=8)
+            if i % 2:
+                nx, ny = rng.randint(5, 14), rng.randint(5, 14)
+                mopts = [[512, 512]]
+                if nx % 2 == 0 and ny % 2 == 0:
+                    mopts += [[nx, ny], [nx - 2, ny - 4], [4, 2], [nx - 4, ny]]
+                mp = [0.0, 0.0] if rng.random() < 0.3 else \
+                    [round(rng.uniform(0, nx * dx), 2), round(rng.uniform(0, ny * dy), 2)]
+                yield "analytic_bins", dict(
+                    nx=nx, ny=ny, dx=dx, dy=dy, const=_rand_const(rng), grid=grid,
+                    closure_kw=None, levels=lv, modes=rng.choice(mopts), meas_pt=mp,
+                    bg=0.0 if fp else round(rng.uniform(-1, 3), 2), footprint=fp,
+                    source=rng.choice(SOURCES), seed=rng.randrange(10 ** 6))
+            else:
+                nx, ny = rng.choice([5, 7, 9, 11]), rng.choice([5, 7, 9, 11])
+                r = rng.random()
+                halo = None if r < 0.15 else (rng.randint(1, 3) * dx if r < 0.4 else
+                                              round(rng.uniform(0.2, 3.2) * dx, 2))
+                mp = [0.0, 0.0] if rng.random() < 0.3 else \
+                    [round(rng.uniform(0, nx * dx), 2), round(rng.uniform(0, ny * dy), 2)]
+                yield "analytic_halo", dict(
+                    nx=nx, ny=ny, dx=dx, dy=dy, const=_rand_const(rng), grid=grid, levels=lv,
+                    halo=halo, meas_pt=mp, bg=0.0 if fp else round(rng.uniform(-1, 3), 2),
+                    footprint=fp, source=rng.choice(SOURCES), seed=rng.randrange(10 ** 6))
 
 
 if __name__ == "__main__":
